@@ -78,6 +78,56 @@ theorem C18_handoff_outsider_no_effect (q : Q) (t : Nat) (h : ∀ m ∈ order q,
     · simp [hs] at he
   | other => simp [hk] at he
 
+def isAlive (m : Msg) : Bool := m.kind == .alive
+
+theorem take_append_full {α : Type} (l r : List α) (d : Nat) (h : l.length ≥ d) : (l ++ r).take d = l.take d := by
+  rw [List.take_append]
+  have : d - l.length = 0 := by omega
+  simp [this]
+
+theorem push_high_closed (d : Nat) (q : Q) (m : Msg) (hq : q.high.length ≤ d) :
+    (push d q m).high = (q.high ++ (if isAlive m then [m] else [])).take d := by
+  unfold push isAlive
+  cases hk : m.kind with
+  | alive =>
+    simp only [beq_self_eq_true, if_true]
+    by_cases hf : q.high.length ≥ d
+    · simp only [hf, if_true]
+      rw [take_append_full _ _ _ hf]
+      exact (List.take_of_length_le hq).symm
+    · simp only [hf, if_false]
+      exact (List.take_of_length_le (by simp; omega)).symm
+  | other =>
+    have : (Kind.other == Kind.alive) = false := by decide
+    simp only [this, Bool.false_eq_true, if_false, List.append_nil]
+    by_cases hf : q.low.length ≥ d <;> simp only [hf, if_true, if_false] <;> exact (List.take_of_length_le hq).symm
+
+/-- **which messages survive a busy handler**: of the alive gossip that arrives while the handler is busy,
+exactly the first `depth` messages are kept (later ones find the queue full), whatever else arrives in
+between; the handler then takes them newest first. -/
+theorem C13_handoff_keeps_the_first (d : Nat) (ms : List Msg) (q : Q) (hq : q.high.length ≤ d) :
+    (pushes d q ms).high = (q.high ++ ms.filter isAlive).take d := by
+  induction ms generalizing q with
+  | nil => simp [pushes]; exact (List.take_of_length_le hq).symm
+  | cons m ms ih =>
+    have hb' : (push d q m).high.length ≤ d := by
+      have := push_high_closed d q m hq
+      rw [this]; simp [List.length_take]; omega
+    have step := ih (push d q m) hb'
+    simp only [pushes, List.foldl_cons] at step ⊢
+    rw [step, push_high_closed d q m hq]
+    by_cases ha : isAlive m = true
+    · simp only [ha, if_true, List.filter_cons_of_pos]
+      by_cases hf : q.high.length ≥ d
+      · have e1 : (q.high ++ [m]).take d = q.high := by
+          rw [take_append_full _ _ _ hf]; exact List.take_of_length_le hq
+        rw [e1, take_append_full _ _ _ hf, take_append_full _ _ _ hf]
+      · have e1 : (q.high ++ [m]).take d = q.high ++ [m] := List.take_of_length_le (by simp; omega)
+        rw [e1]; simp
+    · have ha' : isAlive m = false := by simpa using ha
+      simp only [ha', Bool.false_eq_true, if_false, List.append_nil, List.filter_cons_of_neg, not_false_eq_true]
+      rw [List.take_of_length_le hq]
+
 example : effects (pushes 2 {} [⟨.other, 1, true⟩, ⟨.alive, 2, true⟩, ⟨.alive, 3, false⟩, ⟨.alive, 4, true⟩, ⟨.other, 5, true⟩]) =
     [(.alive, 2), (.other, 5), (.other, 1)] := by decide
 
